@@ -22,6 +22,7 @@ from harness.impl import grammar_io as gio
 
 _REC: Optional[list] = None
 _ADD_STACK: list = []
+_CUR_RE: list = []
 _INSTALLED = False
 _SPEC_CACHE: dict[str, Any] = {}
 
@@ -180,6 +181,29 @@ def install() -> None:
     for n in ("scan_bytes", "scan_regex", "scan_bit"):
         wrap(n)
 
+    # every leaf built inside scan_regex remembers the regex terminal it was scanned for (an attribute on the
+    # fresh Terminal object; survives deepcopy / collapse / to_derivation_tree, which keep or copy the symbol)
+    import fandango.language.grammar.parser.iterative_parser as ip
+    real_terminal = ip.Terminal
+
+    def tagged_terminal(x):
+        t = real_terminal(x)
+        if _CUR_RE:
+            t._c13_re = _CUR_RE[-1]
+        return t
+
+    ip.Terminal = tagged_terminal
+    inner_scan_regex = IterativeParser.scan_regex
+
+    def scan_regex(self, state, word, table, k, w, *rest):
+        _CUR_RE.append(state.dot)
+        try:
+            return inner_scan_regex(self, state, word, table, k, w, *rest)
+        finally:
+            _CUR_RE.pop()
+
+    IterativeParser.scan_regex = scan_regex
+
 
 def canon_scan(ins: dict, adds: list, regexes: gio.RegexTable) -> dict:
     word = ins["word"]
@@ -240,6 +264,37 @@ def leaves_of(tj: list) -> list:
     return out
 
 
+def regex_leaves(tree, regexes) -> Optional[list]:
+    """[[offset, length, regex id]] (units) of the leaves that scan_regex built; None if one of them does not
+    start on a unit boundary (bits before it)"""
+    from fandango.language.tree_value import TreeValueType
+    out: list = []
+    off = 0        # in eighths of a unit
+    ok = True
+
+    def walk(t):
+        nonlocal off, ok
+        sym = t.symbol
+        if sym.is_terminal:
+            if sym.is_type(TreeValueType.TRAILING_BITS_ONLY):
+                off += 1
+                return
+            n = len(tv_units(sym.value())[1])
+            src = getattr(sym, "_c13_re", None)
+            if src is not None:
+                if off % 8:
+                    ok = False
+                else:
+                    out.append([off // 8, n, regexes.id_of(gio.terminal_payload(src))])
+            off += 8 * n
+            return
+        for c in t.children:
+            walk(c)
+
+    walk(tree)
+    return sorted(out) if ok else None
+
+
 def run_pieces(grammar, regexes, pieces, detail: bool) -> dict:
     """new_parse(); consume(piece) for every piece.  -> final complete parses (canonical tree JSON, sorted),
     can_continue after every piece; with detail: per-piece parses/resumables and the aligned flag"""
@@ -248,11 +303,19 @@ def run_pieces(grammar, regexes, pieces, detail: bool) -> dict:
     p = IterativeParser(grammar.rules)
     p.new_parse()
     cc, steps, final = [], [], []
+    re_info: dict = {}
     for pc in pieces:
         trees = []
+        re_info = {}
         for t, complete in p.consume(pc):
             if complete:
-                trees.append(json.dumps(gio.tree_to_json(p.collapse(t)), separators=(",", ":")))
+                ct = p.collapse(t)
+                tj = json.dumps(gio.tree_to_json(ct), separators=(",", ":"))
+                trees.append(tj)
+                rl = regex_leaves(ct, regexes)
+                re_info.setdefault(tj, [])
+                if rl not in re_info[tj]:
+                    re_info[tj].append(rl)     # one tree may be built from different regex terminals
         final = sorted(set(trees))
         c = bool(p.can_continue())
         cc.append(c)
@@ -264,7 +327,7 @@ def run_pieces(grammar, regexes, pieces, detail: bool) -> dict:
                     res.add(json.dumps({"want": term_json(st.dot, regexes), "idx": int(st.incomplete_idx),
                                         "pre": tv_units(last)[1]}, sort_keys=True))
             steps.append({"parses": final, "can_continue": c, "resumable": sorted(res)})
-    out = {"final": final, "cc": cc}
+    out = {"final": final, "cc": cc, "re": re_info}
     if detail:
         aligned = True
         for i, col in enumerate(p._table):
@@ -278,6 +341,65 @@ def run_pieces(grammar, regexes, pieces, detail: bool) -> dict:
         out["aligned"] = aligned
         out["columns"] = len(p._table)
     return out
+
+
+def admitted_lengths(oracle: "Oracle", rid: int, wu: list[int], i: int, lens) -> set:
+    """The match lengths `scan_regex` offers for regex `rid` starting at unit `i` when `wu` is fed in pieces of
+    lengths `lens` — ONE length per scan, the one `re.match` prefers on the text available to that scan:
+    the first scan sees the rest of the piece that contains position i; while the text seen so far is a partial
+    match, an incomplete state is parked at the end of the piece and scanned again with the next piece added
+    (a length that does not get past the text already seen is dropped: `match_length <= prev_match_length`)."""
+    out: set = set()
+    start, prev, first = 0, 0, True
+    for ln in lens:
+        end = start + ln
+        if end <= i:
+            start = end
+            continue
+        text = wu[i:end]
+        full, part = oracle.ask(rid, text)
+        w = (i - start) if first else 0
+        matched = full is not None and full > prev
+        if matched:
+            out.add(full)
+        if part is None or (not matched and part + w < ln):
+            break
+        prev, first, start = part, False, end
+    return out
+
+
+def predict_split(oracle: "Oracle", wu: list[int], results: dict, re_infos: dict) -> Optional[dict]:
+    """Are the differences between the compositions exactly those the one-length-per-scan behaviour of
+    scan_regex produces?  universe = every complete parse seen under any composition; a parse is expected under
+    a composition iff each of its regex leaves has an admitted length there.
+    -> None if every composition's result equals the prediction, else the first mismatch."""
+    universe = sorted(re_infos)
+    cache: dict = {}
+    for lens, final in results.items():
+        expected = []
+        for tj in universe:
+            ok_any = False
+            for rl in re_infos[tj]:
+                if rl is None:
+                    return {"comp": list(lens), "why": "regex leaf off a unit boundary"}
+                ok = True
+                for off, n, rid in rl:
+                    key = (rid, off, lens)
+                    if key not in cache:
+                        cache[key] = admitted_lengths(oracle, rid, wu, off, lens)
+                    if n not in cache[key]:
+                        ok = False
+                        break
+                if ok:
+                    ok_any = True
+                    break
+            if ok_any:
+                expected.append(tj)
+        if sorted(expected) != sorted(final):
+            return {"comp": list(lens), "why": "result differs from the one-length-per-scan prediction",
+                    "missing": [t for t in expected if t not in final][:2],
+                    "unexpected": [t for t in final if t not in expected][:2]}
+    return None
 
 
 def run_pieces_safe(grammar, regexes, pieces, detail: bool) -> dict:
@@ -425,6 +547,171 @@ def gen_words(grammar, kind: str, rng: random.Random, n_words: int, max_len: int
     return out, members
 
 
+# ------------------------------------------------------------------------------------------------
+# the protocol path: FandangoIO.add_receive -> one-unit fragments -> parse_next_remote_packet
+# ------------------------------------------------------------------------------------------------
+
+_IO_CACHE: dict[str, Any] = {}
+
+
+class _FakeClock:
+    """parse_next_remote_packet polls the fragment list with wall-clock time-outs (1 s after the last fragment,
+    10 s for the first); a virtual clock makes the run deterministic and independent of the machine's load"""
+    def __init__(self):
+        self.t = 0.0
+
+    def time(self):
+        self.t += 0.3
+        return self.t
+
+    def sleep(self, s):
+        self.t += s
+
+
+def io_setup(spec: str):
+    """the grammar under test as the one message type `<c13msg>` that the external party Ext sends to Fz"""
+    if spec in _IO_CACHE:
+        return _IO_CACHE[spec]
+    from harness.gen.protocols import party_classes
+    try:
+        body = spec.replace("<start>", "<c13msg>")
+        text = "<start> ::= <Ext:Fz:c13msg>\n" + body + "\n" + party_classes(["Ext", "Fz"], ["Fz"])
+        g, _ = gio.parse_spec(text)
+        from fandango.io.navigation.packetforecaster import PacketForecaster
+        from fandango.language.symbols import NonTerminal
+        from fandango.language.tree import DerivationTree
+        fc = PacketForecaster(g).predict(DerivationTree(NonTerminal("<start>")))
+        nt = NonTerminal("<c13msg>")
+        if "Ext" not in fc or nt not in set(fc["Ext"].get_non_terminals()):
+            raise ValueError("forecast does not offer the message")
+        _gj, regexes = gio.grammar_to_json(g)
+        _IO_CACHE[spec] = (g, fc, nt, regexes)
+    except Exception as e:  # noqa
+        if type(e).__name__ == "_Alarm":
+            raise
+        _IO_CACHE[spec] = f"{type(e).__name__}: {e}"[:120]
+    return _IO_CACHE[spec]
+
+
+def _strip_parties(tj: list) -> list:
+    if tj[0] == "n":
+        return ["n", tj[1], None, None, [_strip_parties(k) for k in tj[4]]]
+    if tj[0] == "s":
+        return ["s", [_strip_parties(k) for k in tj[1]]]
+    return [tj[0], tj[1], None, None]
+
+
+def io_run(spec: str, kind: str, word, lens, oracle_mode: str) -> dict:
+    """`word` handed to FandangoIO.add_receive in chunks of lengths `lens`; parse_next_remote_packet.
+    Compared (1) with the incremental parser driven directly with one-unit pieces the way the packet parser
+    documents it (longest prefix with a complete parse, first tree) and (2) with the complete parses of that
+    prefix supplied at once."""
+    setup = io_setup(spec)
+    if isinstance(setup, str):
+        return {"skip": setup}
+    g, fc, nt, regexes = setup
+    import fandango.io.packetparser as pp
+    from fandango.io import FandangoIO
+    from fandango.language.grammar import ParsingMode
+    from fandango.language.grammar.parser.iterative_parser import IterativeParser
+    pp.time = _FakeClock()
+    io = FandangoIO()
+    for piece in split(word, lens):
+        io.add_receive("Ext", "Fz", piece)
+    n = len(word)
+    units = [word[i:i + 1] for i in range(n)]
+    frag_ok = [f[2] for f in io.get_received_msgs()] == units and \
+        all(f[0] == "Ext" and f[1] == "Fz" for f in io.get_received_msgs())
+    out: dict[str, Any] = {"fragments_ok": frag_ok}
+    try:
+        pk, tree = pp.parse_next_remote_packet(g, fc, io)
+        out["tree"] = json.dumps(_strip_parties(gio.tree_to_json(tree)), separators=(",", ":"))
+        out["parties"] = [tree.sender, tree.recipient]
+        out["consumed"] = n - len(io.get_received_msgs())
+        out["re"] = regex_leaves(tree, regexes)
+    except Exception as e:  # noqa
+        if type(e).__name__ in ("_Alarm", "RecursionError", "MemoryError"):
+            raise
+        out["raised"] = type(e).__name__
+        out["consumed"] = n - len(io.get_received_msgs())
+    # (1) the same fragments on a parser of our own
+    hook = None
+    try:
+        hd = sorted(fc["Ext"][nt].paths, key=lambda x: str(x.path))[0]
+        hook = hd.tree.get_last_by_path([x[0] for x in hd.path if not x[1]])
+    except Exception:  # noqa
+        hook = None
+    p = IterativeParser(g.rules)
+    p.new_parse(start=nt, mode=ParsingMode.COMPLETE, hookin_parent=hook)
+    best = None
+    try:
+        for k, u in enumerate(units):
+            t, complete = next(p.consume(u), (None, None))
+            if t is not None and complete:
+                best = (k + 1, json.dumps(_strip_parties(gio.tree_to_json(p.collapse(t))), separators=(",", ":")))
+            if not p.can_continue():
+                break
+        out["direct"] = {"consumed": best[0], "tree": best[1]} if best else {"raised": "FandangoFailedError"}
+    except Exception as e:  # noqa
+        if type(e).__name__ in ("_Alarm", "RecursionError", "MemoryError"):
+            raise
+        out["direct"] = {"raised": type(e).__name__}
+    # (2) the consumed prefix supplied at once
+    if "tree" in out:
+        k = out["consumed"]
+        q = IterativeParser(g.rules)
+        q.new_parse(start=nt, mode=ParsingMode.COMPLETE, hookin_parent=hook)
+        try:
+            once = sorted({json.dumps(_strip_parties(gio.tree_to_json(q.collapse(t))), separators=(",", ":"))
+                           for t, c in q.consume(word[:k]) if c})
+        except Exception as e:  # noqa
+            if type(e).__name__ in ("_Alarm", "RecursionError", "MemoryError"):
+                raise
+            once = [f"<raised {type(e).__name__}>"]
+        out["in_once"] = out["tree"] in once
+        out["n_once"] = len(once)
+        if not out["in_once"]:
+            # the only accepted explanation: a regex leaf of the tree has a length that is offered when the
+            # input comes unit by unit but not when it comes at once (the open finding)
+            rl = out["re"]
+            oracle = Oracle(regexes.patterns, oracle_mode)
+            wu = to_units(word[:k])
+            expl = False
+            if rl:
+                unit_ok = all(ln in admitted_lengths(oracle, rid, wu, off, tuple([1] * k)) for off, ln, rid in rl)
+                once_ok = all(ln in admitted_lengths(oracle, rid, wu, off, (k,)) for off, ln, rid in rl)
+                expl = unit_ok and not once_ok
+            out["split_explains"] = expl
+    out.pop("re", None)
+    # (3) no longer prefix is accepted when supplied at once (the packet parser keeps the longest complete parse)
+    longer = None
+    q_rules = g.rules
+    for j in range(n, out.get("consumed", 0), -1):
+        q = IterativeParser(q_rules)
+        q.new_parse(start=nt, mode=ParsingMode.COMPLETE, hookin_parent=hook)
+        try:
+            trees = [q.collapse(t) for t, c in q.consume(word[:j]) if c]
+            if trees:
+                longer = j
+                # explained by the open finding iff every at-once parse has a regex leaf whose length is not
+                # offered when the input comes unit by unit
+                oracle = Oracle(regexes.patterns, oracle_mode)
+                wu = to_units(word[:j])
+                expl = True
+                for t in trees:
+                    rl = regex_leaves(t, regexes)
+                    if not rl or all(ln in admitted_lengths(oracle, rid, wu, off, tuple([1] * j))
+                                     for off, ln, rid in rl):
+                        expl = False
+                out["longer_explained"] = expl
+                break
+        except Exception as e:  # noqa
+            if type(e).__name__ in ("_Alarm", "RecursionError", "MemoryError"):
+                raise
+    out["longer_once"] = longer
+    return out
+
+
 def handle(case: dict) -> dict:
     global _REC
     install()
@@ -474,8 +761,19 @@ def handle(case: dict) -> dict:
         # -- every composition on the real parser
         diffs = []
         cc_by_prefix: dict[int, set] = {}
+        results: dict = {tuple([n]): whole["final"]}
+        re_infos: dict = {}
+        raised_any = bool(whole.get("raised"))
+        for tj, rls in whole.get("re", {}).items():
+            re_infos.setdefault(tj, [])
+            re_infos[tj] += [x for x in rls if x not in re_infos[tj]]
         for lens in comps:
             r = run_pieces_safe(grammar, regexes, split(word, lens), False)
+            results[tuple(lens)] = r["final"]
+            raised_any = raised_any or bool(r.get("raised"))
+            for tj, rls in r.get("re", {}).items():
+                re_infos.setdefault(tj, [])
+                re_infos[tj] += [x for x in rls if x not in re_infos[tj]]
             if r["final"] != whole["final"]:
                 diffs.append({"comp": list(lens), "final": r["final"]})
             pos = 0
@@ -484,6 +782,13 @@ def handle(case: dict) -> dict:
                 cc_by_prefix.setdefault(pos, set()).add(c)
         rec["diffs"] = diffs[:8]
         rec["n_diffs"] = len(diffs)
+        # are the differences exactly those of the known one-length-per-scan behaviour of scan_regex?
+        rec["split_mismatch"] = None
+        if diffs:
+            rec["split_mismatch"] = ({"why": "a composition raised"} if raised_any or n == 0 else
+                                     predict_split(oracle, wu, results, re_infos))
+            rec["n_outcomes"] = len({tuple(v) for v in results.values()})
+        whole.pop("re", None)
         rec["cc_by_prefix"] = {str(k): sorted(v) for k, v in cc_by_prefix.items()}
         # -- can_continue soundness: a prefix after which the parser says "cannot continue" has no extension
         unsound = []
@@ -536,6 +841,11 @@ def handle(case: dict) -> dict:
                 {"leaves": sorted(set(json.dumps(leaves_of(json.loads(t))) for t in s["parses"])),
                  "can_continue": s["can_continue"], "resumable": s["resumable"]} for s in r["steps"]],
                 "aligned": r["aligned"]})
+        # -- the protocol path (one-unit fragments whatever the chunks handed to add_receive)
+        if case.get("io", True) and n >= 1:
+            io_lens = rng.choice(comps) if comps else (n,)
+            rec["io"] = io_run(case["spec"], kind, word, io_lens, mode)
+            rec["io"]["chunks"] = list(io_lens)
         scan_list = list(scans.values())
         keys = [(c["term"][1], c["pre"] + c["rest"]) for c in scan_list if c["term"][0] == "re"]
         for c in scan_list:
